@@ -14,6 +14,7 @@ def parse_repr(text):
         "datetime": datetime,
         "UUID": uuid.UUID,
         "bytearray": bytearray,
+        "array": __import__("array").array,
         "__builtins__": {"True": True, "False": False, "None": None, "bytearray": bytearray, "set": set,
                          "frozenset": frozenset, "float": float, "range": range, "bytes": bytes},
     }
